@@ -36,6 +36,15 @@ def run(tier, seed):
     if r.verdict != 'proved':
         pack.undecided_obl(r.name, r.note)
     bounded(pack, tier, seed)
+    from contracts import bounded_eig_ref as BR
+    rname = 'C08/andes/routines/eig.py:EIG.run/bounded:reported-spectrum-equals-that-of-the-reduced-state-matrix;counts;participation'
+    r = native_guard(pack, rname, BR.run)
+    if r is not None:
+        nr, badr = r
+        pack.bounded.append({'function': 'EIG.run (end to end)', 'kind': 'bounded native: %s, before and after a multi-device inertia change' % ', '.join(BR.CASES),
+                             'cases': nr, 'counted_as_proved': False})
+        if badr:
+            pack.violation(rname, {'bounded': True, 'inputs': badr, 'native_cmd': 'contracts/bounded_eig_ref.py'})
     return pack.finish()
 
 
